@@ -203,6 +203,57 @@ fn plus_for_space(seed: u64, shard: u64, n: u64) -> Tally {
     t
 }
 
+/// Folded forms whose merged URI straddles what http::Uri can hold (65 534 bytes), validly signed over the merged
+/// parameters: refusing them is fine; accepting one obliges the library to return exactly what was authenticated.
+fn oversize_folded(seed: u64, shard: u64, n: u64) -> Tally {
+    let mut t = Tally::new();
+    for i in 0..n {
+        let mut r = Rng::keyed(seed, "C15", "oversize", shard, i);
+        let mut cfg = gen_cfg(&mut r);
+        cfg.s3 = false;
+        cfg.fold = true;
+        let o = GenOpts {
+            allow_form: false,
+            max_pairs: 2,
+            ..Default::default()
+        };
+        let mut l = gen_logical(&mut r, &cfg, &o);
+        l.method = "POST".into();
+        let size = *r.pick(&[60_000usize, 64_000, 65_000, 65_400, 65_500, 65_530, 65_540, 66_000, 70_000, 131_072, 200_000]) + r.usize_below(40);
+        l.form_pairs = Some(vec![(b"QueueName".to_vec(), b"orders".to_vec()), (b"MessageBody".to_vec(), vec![b'm'; size]), (b"DelaySeconds".to_vec(), b"5".to_vec())]);
+        l.body.clear();
+        l.content_type = Some(b"application/x-www-form-urlencoded".to_vec());
+        let present = crate::gen::present_header_names(&l);
+        l.signed.retain(|s| present.contains(s));
+        let mut sr = Rng::keyed(seed, "C15", "oversize-spell", shard, i);
+        let mut sp = Speller {
+            r: &mut sr,
+            level: 0,
+        };
+        let (case, _) = make_case(&l, &cfg, &mut sp, &Overrides::default(), 0);
+        let rec = execute(&case);
+        t.eval();
+        let Some(j) = judge(&case, &rec) else {
+            continue;
+        };
+        if rec.outcome.is_ok() {
+            if let Some(v) = mon_returned(&case, &rec, &j) {
+                let mut v = v;
+                v.signature = format!("{}|oversize-form", v.signature);
+                v.detail = format!("folded form body of {} bytes: {}", size, v.detail);
+                t.violate(v);
+            } else {
+                t.count("large_folded_accepted_and_returned_intact");
+                t.nontrivial(case.hash());
+            }
+        } else {
+            t.count("large_folded_refused");
+            t.nontrivial(case.hash());
+        }
+    }
+    t
+}
+
 pub fn run(tier: Tier) -> i32 {
     let mut ctx = Ctx::new("C15", tier);
     let pre = preflight();
@@ -211,6 +262,8 @@ pub fn run(tier: Tier) -> i32 {
     let mut tally = ctx.par(32, |s| shard(seed, s, per));
     let plus = ctx.par(4, |s| plus_for_space(seed, s, tier.n(10, 200)));
     tally.merge(plus);
+    let big = ctx.par(8, |s| oversize_folded(seed, s, tier.n(12, 300)));
+    tally.merge(big);
     if let Err(e) = &pre {
         tally.inconclusive.push(e.clone());
     }
@@ -221,6 +274,7 @@ pub fn run(tier: Tier) -> i32 {
     ctx.gate("methods seen", METHODS.iter().filter(|m| tally.get(&format!("method/{}", m)) > 0).count() as u64, METHODS.len() as u64);
     ctx.gate("principal identity kinds returned", (0..6).filter(|v| tally.get(&format!("principal_kind/{}", v)) > 0).count() as u64, 6);
     ctx.gate("absolute-form URIs", tally.get("absolute_form"), tier.n(1000, 10_000));
+    ctx.gate("folded forms around the 65 534-byte URI limit decided (refused, or accepted and returned intact)", tally.get("large_folded_refused") + tally.get("large_folded_accepted_and_returned_intact"), tier.n(90, 2000));
     ctx.gate("bodies ≥ 64 KiB", tally.get("body_64k_plus"), tier.n(100, 2000));
     let rep = Report {
         level: "exploration",
